@@ -317,9 +317,18 @@ func check(c Case) vk.Verdict {
 	if d := m1.TotalAlloc - m0.TotalAlloc; d > 8<<20+256*uint64(len(raw)) {
 		return vk.Failf("%s: serving %d bytes allocated %d bytes", ctx, len(raw), d)
 	}
+	// responses can be attributed to requests up to (and including) the first request that is not well-formed: whatever
+	// follows it may be read by the server as further (garbage) requests
+	firstBad := len(c.Reqs)
+	for i, r := range c.Reqs {
+		if r.Mut != "" || !(r.Proto == "" || r.Proto == "HTTP/1.1") || !validMethodToken(r.Method) || !strings.HasPrefix(r.Target, "/") || strings.ContainsAny(r.Target, "\xff\xfe") {
+			firstBad = i
+			break
+		}
+	}
 	// a request the server could not parse is answered with an error body and "Connection: close" whatever its method was
 	head := func(i int) bool {
-		return i < len(c.Reqs) && c.Reqs[i].Method == "HEAD" && c.Reqs[i].Mut == "" && (c.Reqs[i].Proto == "" || c.Reqs[i].Proto == "HTTP/1.1" || c.Reqs[i].Proto == "HTTP/1.0")
+		return i <= firstBad && i < len(c.Reqs) && c.Reqs[i].Method == "HEAD" && c.Reqs[i].Mut == "" && (c.Reqs[i].Proto == "" || c.Reqs[i].Proto == "HTTP/1.1" || c.Reqs[i].Proto == "HTTP/1.0")
 	}
 	resps, perr := vk.ParseResponses(out, head)
 	if perr != nil {
@@ -334,15 +343,6 @@ func check(c Case) vk.Verdict {
 	}
 	if nerr := vk.NetHTTPAccepts(out, head); nerr != nil {
 		return vk.Failf("%s: Go's net/http client refuses the server's output: %v\noutput: %q", ctx, nerr, clip(out, 1200))
-	}
-	// responses can be attributed to requests up to (and including) the first request that is not well-formed: whatever
-	// follows it may be read by the server as further (garbage) requests
-	firstBad := len(c.Reqs)
-	for i, r := range c.Reqs {
-		if r.Mut != "" || !(r.Proto == "" || r.Proto == "HTTP/1.1") || !validMethodToken(r.Method) || !strings.HasPrefix(r.Target, "/") || strings.ContainsAny(r.Target, "\xff\xfe") {
-			firstBad = i
-			break
-		}
 	}
 	if firstBad == len(c.Reqs) && len(resps) > len(c.Reqs) {
 		return vk.Failf("%s: %d responses for %d well-formed requests\noutput: %q", ctx, len(resps), len(c.Reqs), clip(out, 1200))
@@ -527,9 +527,9 @@ func gz(b []byte) []byte {
 }
 
 func genReq(t *rapid.T) Req {
-	r := Req{Method: rapid.SampledFrom([]string{"GET", "GET", "GET", "POST", "POST", "HEAD", "PUT", "DELETE", "FOO", "PURGE", "get", "G T", ""}).Draw(t, "method"),
-		Target: rapid.SampledFrom([]string{"/o/x/y", "/o/x/y?a=1&b=2&b=3&n=7", "/o/%41/z%2Fw?a=%zz", "/o/x/", "/o/x", "/", "/nope", "*", "http://evil.test/o/x/y", "/o/x/y?" + strings.Repeat("k=v&", 40), "/o/\xff\xfe/y", "//o/x/y", "/o/x/y#frag", "o/x/y", ""}).Draw(t, "target"),
-		Proto:  rapid.SampledFrom([]string{"", "", "", "", "HTTP/1.0", "HTTP/2.0", "HTTP/000", "XTTP/1.1"}).Draw(t, "proto")}
+	r := Req{Method: rapid.SampledFrom([]string{"GET", "GET", "GET", "GET", "GET", "POST", "POST", "POST", "HEAD", "HEAD", "PUT", "DELETE", "PATCH", "OPTIONS", "FOO", "PURGE", "get", "G T", ""}).Draw(t, "method"),
+		Target: rapid.SampledFrom([]string{"/o/x/y", "/o/x/y", "/o/x/y", "/o/x/y?a=1&b=2&b=3&n=7", "/o/x/y?a=1&b=2&b=3&n=7", "/o/sub/deep/er?a=%20x", "/o/%41/z%2Fw?a=%zz", "/o/x/", "/o/x/y?n=abc", "/o/x", "/", "/nope", "*", "http://evil.test/o/x/y", "/o/x/y?" + strings.Repeat("k=v&", 40), "/o/\xff\xfe/y", "//o/x/y", "/o/x/y#frag", "o/x/y", ""}).Draw(t, "target"),
+		Proto:  rapid.SampledFrom([]string{"", "", "", "", "", "", "", "", "", "HTTP/1.0", "HTTP/1.0", "HTTP/2.0", "HTTP/000", "XTTP/1.1"}).Draw(t, "proto")}
 	add := func(k string, vals []string) {
 		if rapid.IntRange(0, 3).Draw(t, "has"+k) == 0 {
 			r.Headers = append(r.Headers, [2]string{k, rapid.SampledFrom(vals).Draw(t, "v"+k)})
@@ -582,7 +582,7 @@ func genReq(t *rapid.T) Req {
 		}
 		r.Chunked = rapid.IntRange(0, 5).Draw(t, "chunked") == 0
 	}
-	r.Mut = rapid.SampledFrom([]string{"", "", "", "", "", "", "", "", "dup-cl", "huge-cl", "neg-cl", "nul-in-header", "oversize-header", "header-no-colon", "bare-lf", "bad-chunk", "trunc-body"}).Draw(t, "mut")
+	r.Mut = rapid.SampledFrom([]string{"", "", "", "", "", "", "", "", "", "", "", "", "", "", "", "", "", "", "", "", "", "", "", "", "", "", "", "dup-cl", "huge-cl", "neg-cl", "nul-in-header", "oversize-header", "header-no-colon", "bare-lf", "bad-chunk", "trunc-body"}).Draw(t, "mut")
 	r.NoHost = rapid.IntRange(0, 12).Draw(t, "nohost") == 0
 	return r
 }
